@@ -1,7 +1,7 @@
 (* Property C02 — error items follow the documented span rule and lexing recovers.
    Only final statements; proofs in Engine/StopProofs.v and Engine/LexProofs.v. *)
-From Coq Require Import List NArith.
-From LogosV Require Import Engine.Model Engine.Cert Engine.CertProofs Engine.SpecProofs Engine.StopProofs Engine.LexProofs.
+From Coq Require Import List NArith FMapPositive.
+From LogosV Require Import Engine.Model Engine.Cert Engine.CertProofs Engine.SpecProofs Engine.StopProofs Engine.LexProofs Engine.Prog Engine.StreamProg.
 Import ListNotations.
 Local Open Scope N_scope.
 
@@ -34,3 +34,12 @@ Theorem C02_lv_is_live : forall d g V R D,
   dfa_ok d = true -> sim_ok d g V D = true -> exact_ok d g V R D = true ->
   forall q, lv_of R q = true <-> Live d q.
 Proof. exact lv_iff_live. Qed.
+
+(* the same for the program the code generator emits (translator K12, checker prog_ok) *)
+Theorem C02_emitted_stop_exact : forall U g p,
+  prog_ok g p = true -> wf_graph g = true ->
+  forall d V R D, dfa_ok d = true -> sim_ok d g V D = true -> exact_ok d g V R D = true ->
+  forall (rest : list byte) (start : N) c off, bytes_ok rest ->
+  fst (attempt_prog U p (PositiveMap.cardinal (g_states g)) false start rest) = Acted c off ->
+  Stops d R (d_start d) rest start off.
+Proof. exact emitted_stop_exact. Qed.
